@@ -173,9 +173,11 @@ def build_harness(targets, timeout=2400):
     return ok, log
 
 
-def run_cases_sharded(exe, case_texts, shards=16, timeout=120, single_timeout=20):
+def run_cases_sharded(exe, case_texts, shards=16, timeout=120, single_timeout=20, max_offenders=None):
     """Runs [exe] over case texts split into shards in parallel.  A shard that
-    times out is re-run case by case; offenders are skipped and returned."""
+    times out is re-run case by case; offenders are skipped and returned.  With [max_offenders], once that many
+    single cases have timed out the remaining cases of timed-out shards are returned as skipped without being run
+    (a change that makes every case hang must not make the check itself run for hours)."""
     from concurrent.futures import ThreadPoolExecutor
     chunks = [case_texts[i::shards] for i in range(shards)]
 
@@ -197,6 +199,9 @@ def run_cases_sharded(exe, case_texts, shards=16, timeout=120, single_timeout=20
                 outs.append(o)
             else:
                 for c in bad:
+                    if max_offenders is not None and len(skipped) >= max_offenders:
+                        skipped.append(c)
+                        continue
                     o1, b1 = one([c], single_timeout)
                     if o1 is not None:
                         outs.append(o1)
